@@ -12,17 +12,23 @@ package main
 //             beforeClose, three commit events | three rollback events, afterClose — each once
 //   pick      commit events iff len(Errors()) == 0 when the triple starts, rollback otherwise
 //   waits     when the triple starts every task added is done and every signed-on child has fired
-//             afterClose; a Close that must still wait has not returned (sampled); a Close that can
-//             finish returns (10 s)
+//             afterClose AND its after-close trigger has ended (no listener of the child is still
+//             running: a parent never fires beforeCommit/beforeRollback while a signed-on child has a
+//             listener running); a Close that must still wait has not returned and has not fired a
+//             triple event (sampled); a Close that can finish returns (10 s)
 //   result    Close returns an error iff len(Errors()) > 0 right after it returned
 //   twice     a second Close panics, the listener log and every scope's state are unchanged
 //   closedop  AppendError/Kill/Stop on a closing or closed scope panic and change nothing
 //   shared    after AppendError/Kill on an open scope, every scope sharing its context is done and
-//             holds an error; when such a scope closes it rolls back and reports the error
+//             holds an error; when such a scope closes it rolls back and reports the error; the same
+//             for every scope sharing the context of a closing scope one of whose close-event
+//             listeners returns an error, if its own wait has not ended yet
 //   isolated  the same operation (and Stop) changes no scope outside that context and the contexts
 //             isolated below it
 //   inherit   every scope whose context is isolated below a done context becomes done (10 s)
 //   listener  every listener sees, per closing scope, a duplicate-free subsequence of that order
+//   events    Close delivers its eight events and nothing else: a kill/stop/error listener is never
+//             invoked with a scope as data, a listener of a close event never without one
 
 import (
 	"fmt"
@@ -57,10 +63,13 @@ func (h *H) probeSees(sn *node, ev string) {
 		for _, k := range kids {
 			h.mu.Lock()
 			open := !lastIs(k.seq, "afterClose")
+			busy := !open && (!k.afterDone || k.parked != nil)
 			reg := k.registered
 			h.mu.Unlock()
 			if open && reg {
 				bad = append(bad, fmt.Sprintf("child %d not closed", k.id))
+			} else if busy && reg {
+				bad = append(bad, fmt.Sprintf("child %d still running its after-close listeners", k.id))
 			} else if open {
 				// the child was created when this scope was already done and never signed on
 				kf = append(kf, strconv.Itoa(k.id))
@@ -105,6 +114,22 @@ func (h *H) oracleClosed(n *node, r closeRes) {
 	if n.mustFail && (seq != seqRollback || !r.err) {
 		h.fail("shared", fmt.Sprintf("scope %d shares a failed context but fired [%s] and returned error=%v", n.id, seq, r.err))
 	}
+}
+
+// oracleListenerFailed runs inside a listener of a close event of sn that is about to return an error:
+// the error goes into sn's context, so every scope sharing it whose wait has not ended must roll back.
+func (h *H) oracleListenerFailed(sn *node) {
+	h.mu.Lock()
+	for _, m := range h.nodes {
+		if m.c == sn.c && !m.picked {
+			m.mustFail = true
+		}
+	}
+	h.mu.Unlock()
+}
+
+func isPrefixOf(seq, full string) bool {
+	return seq != "" && len(seq) < len(full) && full[:len(seq)] == seq && full[len(seq)] == ','
 }
 
 func (h *H) snapshot() []string {
@@ -153,7 +178,11 @@ func (h *H) oracleAfterFail(op string, n *node, panicked bool, before []string) 
 		switch {
 		case m.c == n.c:
 			if op != "stop" {
-				m.mustFail = true
+				h.mu.Lock()
+				if !m.picked { // a scope whose wait has ended has made its choice already
+					m.mustFail = true
+				}
+				h.mu.Unlock()
 				if !m.scp.IsDone() || len(m.scp.Errors()) == 0 {
 					h.fail("shared", fmt.Sprintf("%s on scope %d: scope %d shares its context but shows %s", op, n.id, i, after[i]))
 				}
@@ -210,10 +239,16 @@ func (h *H) oracleFinish() {
 				h.fail("order", fmt.Sprintf("scope %d was never closed but fired [%s]", n.id, seq))
 			}
 		case !n.returned:
-			if seq != "beforeClose" {
+			h.mu.Lock()
+			parked, picked := n.parked != nil, n.picked
+			h.mu.Unlock()
+			if !isPrefixOf(seq, seqCommit) && !isPrefixOf(seq, seqRollback) && seq != seqCommit && seq != seqRollback {
+				h.fail("order", fmt.Sprintf("scope %d is inside Close but fired [%s]", n.id, seq))
+			}
+			if !parked && !picked && seq != "beforeClose" {
 				h.fail("order", fmt.Sprintf("scope %d is waiting in Close but fired [%s]", n.id, seq))
 			}
-			if n.wgm <= 0 {
+			if !parked && (n.wgm <= 0 || picked) {
 				h.fail("waits", fmt.Sprintf("scope %d: Close does not return although nothing is outstanding", n.id))
 			}
 		}
@@ -234,6 +269,17 @@ func (h *H) oracleFinish() {
 		if !isSubseq(evs, h.nodes[k.src].seq) {
 			h.fail("listener", fmt.Sprintf("listener %d saw [%s] of scope %d which fired [%s]", k.lid,
 				strings.Join(evs, ","), k.src, strings.Join(h.nodes[k.src].seq, ",")))
+		}
+	}
+	// Close delivers only its own events (and Kill/Stop/AppendError only theirs)
+	for _, e := range h.log {
+		if (evIndex(e.ev) >= 3) != (e.src >= 0) {
+			src := "no scope"
+			if e.src >= 0 {
+				src = "scope " + strconv.Itoa(e.src)
+			}
+			h.fail("events", fmt.Sprintf("listener %d registered for %s was invoked with %s as data", e.lid, e.ev, src))
+			break
 		}
 	}
 	// every isolated context below a done context is done
